@@ -5,13 +5,16 @@ import Just.Props.C12
 import Just.Lemmas.Unindent
 import Just.Model.Body
 import Just.Lemmas.Cook
+import Just.Lemmas.ParserFuel
 /-
 C11  No input makes just panic, abort, hang or report an internal error.
 
 What is proved here concerns the lexer (src/lexer.rs), the component whose `loop`, `assert_eq!`s
 and `internal_error` sites the property is anchored in; the Lean port is tied to the code token
-for token by the differential check.  Parser, analyzer, evaluator and command line are covered by
-enumeration through the in-process harness and the binary (vlib/c11.py), not by theorems.
+for token by the differential check - and the token-level model of the parser (`parse_ast` with everything it
+calls, Model/Syntax, Header, Items, Ast; tied to parser.rs by the whole-file differential of C10): it cannot hang.
+Analyzer, evaluator and command line are covered by enumeration through the in-process harness and the binary
+(vlib/c11.py), not by theorems; the parser's recursion-depth guard and stack use are not modelled.
 -/
 namespace Just.C11
 open Just.Lexer
@@ -208,5 +211,35 @@ theorem cook_literal_unwrap_safe (indented escapes : Bool) (raw : List Char) :
   split
   · exact cook_unwrap_safe _
   · intro h; cases h
+
+/-! ### the parser cannot hang -/
+
+/-- **Every turn of the `loop` of `parse_ast` that goes on has consumed at least one token** - whatever the tokens,
+the items read so far and the state of `eol_since_last_comment`.  (35 progress lemmas, one per parsing function of the
+model: each returns strictly fewer tokens than it was given, the optional and repeated parts not more.) -/
+theorem parser_loop_progress (litLe : String → String → Bool) (fuel : Nat) (acc acc' : List Ast.Item) (eol eol' : Bool)
+    (ts rest : List Syntax.Tk) (h : Ast.step litLe fuel acc eol ts = some (.more acc' eol' rest)) : rest.length < ts.length :=
+  Ast.step_progress litLe fuel acc eol ts _ h
+
+/-- … hence the loop takes at most as many turns as there are tokens: more loop fuel changes nothing. -/
+theorem parser_loop_bounded (litLe : String → String → Bool) (fuel f k : Nat) (acc : List Ast.Item) (eol : Bool) (ts : List Syntax.Tk)
+    (h : ts.length < f) : Ast.parseItems litLe fuel (f + k) acc eol ts = Ast.parseItems litLe fuel f acc eol ts :=
+  Ast.parseItems_fuel litLe fuel f acc eol ts k h
+
+/-- **The parser needs no fuel.**  The model's parsing functions recurse on a fuel argument; with `8 * tokens + 12`
+`parse_ast` returns exactly what it returns with any larger amount, for every token list.  So the fuel is an artefact of
+the model, every recursion and loop of the parser it stands for ends by itself after a number of calls linear in the
+number of tokens, and a `none` is a syntax error, never exhaustion.  (Lemmas/ParserFuel.lean: the same statement for each
+of the 35 functions, by induction on the fuel with the progress lemmas.) -/
+theorem parser_needs_no_fuel (litLe : String → String → Bool) (ts : List Syntax.Tk) (fuel : Nat) (h : 8 * ts.length + 12 ≤ fuel) :
+    Ast.parseAst litLe fuel ts = Ast.parseAst litLe (8 * ts.length + 12) ts := by
+  obtain ⟨k, rfl⟩ : ∃ k, fuel = (8 * ts.length + 12) + k := ⟨fuel - (8 * ts.length + 12), by omega⟩
+  exact Ast.parseAst_stable litLe _ k ts (Nat.le_refl _)
+
+/-- the same for an expression on its own -/
+theorem expression_parser_needs_no_fuel (ts : List Syntax.Tk) (fuel : Nat) (h : 8 * ts.length + 4 ≤ fuel) :
+    Syntax.parseExpression fuel ts = Syntax.parseExpression (8 * ts.length + 4) ts := by
+  obtain ⟨k, rfl⟩ : ∃ k, fuel = (8 * ts.length + 4) + k := ⟨fuel - (8 * ts.length + 4), by omega⟩
+  exact (Syntax.parserStable _).expression ts k (Nat.le_refl _)
 
 end Just.C11
